@@ -31,6 +31,10 @@ class _Return(Exception):
         self.value = value
 
 
+class _LoopJump(Exception):
+    pass
+
+
 class Tracer:
 
     def __init__(self, mod, opts):
@@ -104,6 +108,13 @@ class Tracer:
             return bool(v[1])
         if v[0] == 'bool':
             return v[1]
+        if v[0] == 'data':
+            return True
+        if v[0] == 'text' and any(p_[0] == 'xform' for p_ in v[1]):
+            # a test on a text that already went through a library call:
+            # the emitting branch is followed; the transformation is what the
+            # rules judge (the written piece carries the xform mark)
+            return True
         self.err(node, 'condition is not an option test')
 
     def stmt(self, st, env, depth):
@@ -138,7 +149,12 @@ class Tracer:
             env[st.target.id] = self.concat(cur, v, st)
             return
         if isinstance(st, ast.If):
-            if self.truth(self.expr(st.test, env, depth), st.test):
+            tv = self.expr(st.test, env, depth)
+            if tv[0] == 'data' or (tv[0] == 'text' and any(
+                    p_[0] == 'xform' for p_ in tv[1])):
+                self.both_branches(st, env, depth)
+                return
+            if self.truth(tv, st.test):
                 self.block(st.body, env, depth)
             else:
                 self.block(st.orelse, env, depth)
@@ -165,7 +181,58 @@ class Tracer:
             return
         if isinstance(st, ast.Assert):
             return
+        if isinstance(st, ast.Continue) and env.get('\0inloop'):
+            raise _LoopJump()
         self.err(st, f'statement {type(st).__name__} not modelled')
+
+    def both_branches(self, st, env, depth):
+        """A test on the rendered text itself (its length, a prefix, ...):
+        both arms are evaluated; what they emit or bind differently is a
+        data-dependent treatment of the text and is marked as such."""
+        marks = {k: len(v) for k, v in self.traces.items()}
+        base = dict(env)
+        outs = []
+        envs = []
+        for arm in (st.body, st.orelse):
+            e2 = dict(base)
+            for k in ('\0appends', ):
+                if k in env:
+                    e2[k] = env[k]
+            try:
+                self.block(arm, e2, depth)
+                ended = None
+            except _LoopJump as j:
+                ended = type(j).__name__
+            new = {}
+            for k, v in self.traces.items():
+                n0 = marks.get(k, 0)
+                new[k] = v[n0:]
+                del v[n0:]
+            outs.append((new, ended))
+            envs.append(e2)
+        (na, ea), (nb, eb) = outs
+        if ea != eb:
+            self.err(st, 'only one arm of a test on the rendered text '
+                     'leaves the iteration')
+        for k in set(na) | set(nb):
+            a_, b_ = na.get(k, []), nb.get(k, [])
+            if a_ == b_ and ea == eb:
+                self.traces[k].extend(a_)
+            elif a_ or b_:
+                self.traces[k].append(('xform', 'a branch on the rendered '
+                                       'text', list(a_) + list(b_)))
+        for k in set(envs[0]) | set(envs[1]):
+            va, vb = envs[0].get(k), envs[1].get(k)
+            if va == vb:
+                env[k] = va
+                continue
+            pa = self.pieces_of(va) if va is not None else None
+            pb = self.pieces_of(vb) if vb is not None else None
+            if pa is not None and pb is not None:
+                env[k] = ('text', [('xform', 'a branch on the rendered text',
+                                    list(pa) + list(pb))])
+            else:
+                env[k] = va if va is not None else vb
 
     def loop(self, st, env, depth):
         it = self.expr(st.iter, env, depth)
@@ -184,6 +251,15 @@ class Tracer:
         else:
             self.err(st.iter, 'loop over something that is not the '
                      'expression list or a list derived from it')
+        pieces_loop = it[0] == 'text'
+        if env.get('\0inloop') and pieces_loop:
+            # the pieces of one rendered text, inside the loop over the
+            # expressions: the body runs in the same iteration
+            if not isinstance(st.target, ast.Name):
+                self.err(st.target, 'loop target not modelled')
+            env[st.target.id] = elemv
+            self.block(st.body, env, depth)
+            return
         if env.get('\0inloop'):
             self.err(st, 'nested loops over the expressions')
         if not isinstance(st.target, ast.Name):
@@ -197,6 +273,8 @@ class Tracer:
         env2['\0appends'] = {}
         try:
             self.block(st.body, env2, depth)
+        except _LoopJump:
+            pass
         finally:
             env2['\0inloop'] = False
         filtered = it[0] == 'seqf'
@@ -254,11 +332,16 @@ class Tracer:
                 return ('modattr', o[1], e.attr)
             return ('attr', o, e.attr)
         if isinstance(e, ast.UnaryOp) and isinstance(e.op, ast.Not):
-            return ('bool', not self.truth(self.expr(e.operand, env, depth),
-                                           e.operand))
+            ov = self.expr(e.operand, env, depth)
+            if ov[0] == 'data' or (ov[0] == 'text' and any(
+                    p_[0] == 'xform' for p_ in ov[1])):
+                return ('data', )
+            return ('bool', not self.truth(ov, e.operand))
         if isinstance(e, ast.BoolOp):
-            vals = [self.truth(self.expr(v, env, depth), v)
-                    for v in e.values]
+            evs = [self.expr(v, env, depth) for v in e.values]
+            if any(v[0] == 'data' for v in evs):
+                return ('data', )
+            vals = [self.truth(v_, n_) for v_, n_ in zip(evs, e.values)]
             return ('bool', all(vals) if isinstance(e.op, ast.And)
                     else any(vals))
         if isinstance(e, ast.Compare) and len(e.ops) == 1 and isinstance(
@@ -271,7 +354,31 @@ class Tracer:
                 if isinstance(e.ops[0], (ast.IsNot, ast.NotEq)):
                     r = not r
                 return ('bool', r)
+            if any(v[0] in ('text', 'data') for v in (a, b)) and all(
+                    v[0] in ('text', 'data', 'const') for v in (a, b)):
+                return ('data', )  # a test on the rendered text
             self.err(e, 'comparison not decidable')
+        if isinstance(e, ast.Subscript):
+            o = self.expr(e.value, env, depth)
+            po = self.pieces_of(o) if o[0] in ('text', ) else None
+            if po is not None:
+                return ('text', [('xform', 'a slice', po)])
+            if o[0] == 'data':
+                return o
+        if isinstance(e, (ast.Compare, ast.BinOp, ast.UnaryOp)):
+            ops = [e.left] + list(e.comparators) if isinstance(
+                e, ast.Compare) else ([e.left, e.right] if isinstance(
+                    e, ast.BinOp) else [e.operand])
+            if not (isinstance(e, ast.BinOp) and isinstance(e.op, ast.Add)):
+                vals = []
+                try:
+                    vals = [self.expr(x, env, depth) for x in ops]
+                except AnalysisError:
+                    vals = []
+                if vals and any(v[0] in ('text', 'data') for v in vals) \
+                        and all(v[0] in ('text', 'data', 'const')
+                                for v in vals):
+                    return ('data', )
         if isinstance(e, ast.IfExp):
             if self.truth(self.expr(e.test, env, depth), e.test):
                 return self.expr(e.body, env, depth)
@@ -382,6 +489,11 @@ class Tracer:
                                               if e.args else '?'))
         if cn.startswith(('logging.', 'os.')):
             return ('unknown', cn)
+        if cn in ('len', 'bool', 'any', 'all') and len(e.args) == 1 and \
+                not e.keywords:
+            v = self.expr(e.args[0], env, depth)
+            if v[0] in ('text', 'data'):
+                return ('data', )
         # evaluate arguments (with *args expansion)
         args = []
         for a in e.args:
